@@ -9,6 +9,8 @@ Decision points (DESIGN.md section 4/E2):
 """
 import asyncio
 
+from vt.vloop import StepTimeout
+
 
 class Env:
     """Registry of pending external events."""
@@ -98,7 +100,10 @@ def drive(loop, env, chooser, goal, *, faults=lambda: [], on_step=None,
             pick = chooser.choose('s', costs)
         kind, lab, fn = opts[pick]
         if kind == 'run':
-            loop.run_one()
+            try:
+                loop.run_one()
+            except StepTimeout:
+                return 'spin'
         elif kind == 'ev':
             if lab == '~timer':
                 loop.fire_next_timer()
